@@ -89,6 +89,12 @@ CLAIMED = {
    design="5/C13",
    note="Trusted: StyleAlgebra.tla (plain set theory), TLC. Effect sets are observed through contains(single effect), iter() and Debug, which must agree with each other and the model. Quick covers 198 b per a; thorough all 4096 x 4096.",
    technique="TLA+ spec (StyleAlgebra) + TLC trace validation of batched exhaustive operation results"),
+ "C10": dict(
+   level="model_checking",
+   text="Lossy.tla defines the 240 fixed colours (6x6x6 cube + grey ramp), the red-mean metric (compuphase formula, no square root, scaled by 512) and IsNearest (minimal distance, lowest index on ties); TLC checks structural facts of the specification. Every conversion call of the crate is recorded as an event and validated by TLC: all 256 indices and 16 palette colours for the small conversions x {VGA, WIN10, duplicate, extreme, seeded random palettes} exhaustively, every exact table and palette entry, and RGB samples aimed by a sweep - all 2^24 values (thorough) or a 2^18 lattice (quick) are compared with a transliteration of the operator and every disagreement (capped), near-tie (capped) and a stratified sample are forwarded to TLC, which alone decides.",
+   design="5/C10",
+   note="Trusted: Lossy.tla, TLC. TLC costs ~3 ms per 240-candidate colour, so 'all 2^24' is reached by the transliteration sweep and decided by TLC on the forwarded subset (DESIGN section 6).",
+   technique="TLA+ spec (Lossy) + TLC trace validation of conversion calls; exhaustive small conversions; sweep-aimed RGB sample"),
 }
 PENDING_REASON = "check not built yet in this revision of /verif (planned with the TLA+ specification, see DESIGN.md section 5); not claimed until its quick command exists"
 
